@@ -233,7 +233,7 @@ var basicKinds = []string{"int", "string", "bool", "int64", "float64", "uint8", 
 var keyKinds = []string{"int", "string", "int64", "uint8", "bool"}
 
 var fieldPool = []string{"Name", "ID", "Value", "Count", "Items", "Next", "Data", "Key", "Info", "Tags", "Size", "Owner"}
-var unexportedPool = []string{"name", "id", "secret", "count"}
+var unexportedPool = []string{"name", "id", "secret", "count", "_id", "_rev"}
 
 // leafBasic returns a pair of basic (possibly named) types of one kind.
 func (b *Builder) leafBasic() (*spec.T, *spec.T) {
@@ -1671,6 +1671,26 @@ func (b *Builder) Finish() {
 	}
 	if b.ctxRegex {
 		b.SC.Doc = append(b.SC.Doc, "arg:context:regex ^ctx")
+	}
+	// parts of update:ignoreZeroValueField that are off at converter level may say so explicitly
+	// (the default spelled out): a method that sets the collective key still decides all three
+	hasUpdate := false
+	for _, m := range b.Conv.Methods {
+		if m.Update || m.Default != nil {
+			hasUpdate = true
+		}
+	}
+	if hasUpdate {
+		cs := b.Conv.Settings
+		for _, part := range []struct {
+			name string
+			on   bool
+		}{{"basic", cs.ZeroBasic}, {"struct", cs.ZeroStruct}, {"nillable", cs.ZeroNillable}} {
+			if !part.on && b.chance(30, "explicit-zero-part-off") {
+				b.label("zero-part-explicitly-off")
+				b.SC.Doc = append(b.SC.Doc, "update:ignoreZeroValueField:"+part.name+" no")
+			}
+		}
 	}
 	b.SC.Doc = append(b.SC.Doc, b.spellExtends()...)
 	if b.chance(15, "raw-output") {
